@@ -163,8 +163,12 @@ func describe(c *z.Config) map[string]any { return c.JSON() }
 
 // checkOutcome states the clauses of C07 on one observed run.
 func checkOutcome(c *z.Config, o *z.Outcome, textLen int) {
+	if o.Skipped {
+		return
+	}
 	stat["oracle_runs_checked"]++
 	if o.TimedOut {
+		// the run is still spinning in its goroutine: report and wind the harness down
 		Viol("C07/terminates", "parsing did not finish within the deadline", describe(c))
 		return
 	}
@@ -237,6 +241,9 @@ func hasGenerate(c *z.Config) bool {
 func emitParse(c *z.Config, emit bool, kind string) *z.Outcome {
 	text := c.Text.Expand()
 	o := z.Run(c, 3)
+	if o.Skipped {
+		return o
+	}
 	checkOutcome(c, o, len(text))
 	if o.TimedOut {
 		return o
@@ -254,13 +261,23 @@ func emitParse(c *z.Config, emit bool, kind string) *z.Outcome {
 
 func emitLex(rc z.Recipe, kind string) {
 	text := rc.Expand()
-	out := z.LexDump(text, 1<<22)
-	stat["oracle_lex_checked"]++
-	if out == "panic" {
-		Viol("C07/no-panic", "zlexer panicked", map[string]any{"text_recipe_hex": rc.String()})
-	}
+	out := lexChecked(text, rc.String())
 	z.EmitD("lex", []string{rc.String()}, out)
 	stat["case_lex_"+kind]++
+}
+
+// lexChecked dumps the token stream and applies the lexer oracles: no panic, and
+// no more than two tokens per octet (+10), the bound of lex_terminates_linear.
+func lexChecked(text []byte, desc string) string {
+	max := 2*len(text) + 11
+	out := z.LexDump(text, max)
+	stat["oracle_lex_checked"]++
+	if out == "panic" {
+		Viol("C07/no-panic", "zlexer panicked", map[string]any{"text_recipe_hex": desc})
+	} else if strings.Count(out, "|")+1 >= max && len(out) > 0 {
+		Viol("C07/bounded/token-count", "the lexer delivers more than two tokens per octet (it does not stop)", map[string]any{"text_recipe_hex": desc})
+	}
+	return out
 }
 
 func baseCfg(text z.Recipe) *z.Config {
@@ -445,6 +462,9 @@ func bigGenerate() {
 		o := z.Run(c, 3)
 		z.MaxRecs = saved
 		checkOutcome(c, o, 40)
+		if o.Skipped {
+			continue
+		}
 		stat["oracle_generate_bound_checked"]++
 		if len(o.Recs) > 65536 {
 			Viol("C07/generate-bound", fmt.Sprintf("$GENERATE %s yielded %d records", rg, len(o.Recs)), describe(c))
@@ -676,6 +696,9 @@ func pathCases() {
 			c := baseCfg(z.Lit("$INCLUDE " + t + "\n"))
 			c.File, c.Inc, c.HasFS = f, true, true
 			o := z.Run(c, 0)
+			if o.Skipped {
+				continue
+			}
 			p := ""
 			if len(o.Opens) == 1 {
 				p = o.Opens[0]
@@ -699,6 +722,9 @@ func allocCheck() {
 			runtime.ReadMemStats(&m0)
 			o := z.Run(c, 0)
 			runtime.ReadMemStats(&m1)
+			if o.Skipped || o.TimedOut {
+				continue
+			}
 			stat["oracle_alloc_checked"]++
 			alloc := int64(m1.TotalAlloc - m0.TotalAlloc)
 			if alloc > 64*int64(len(text))+(4<<20) {
@@ -724,10 +750,7 @@ func runC07(r *Rng, tier string, n int) {
 	for _, s := range corpus {
 		emitLex(z.Lit(s), "corpus")
 		for i := 0; i < len(s); i++ {
-			stat["oracle_lex_checked"]++
-			if z.LexDump([]byte(s[:i]), 1<<20) == "panic" {
-				Viol("C07/no-panic", "zlexer panicked", map[string]any{"text_hex": Hs(s[:i])})
-			}
+			lexChecked([]byte(s[:i]), Hs(s[:i]))
 			if i%3 == 0 {
 				emitLex(z.Lit(s[:i]), "trunc")
 			}
